@@ -19,7 +19,11 @@ const MATRIX: u64 = 4 * 2 * 2 * 2 * 4 * 3 * 8;
 const TUNNEL_CELLS: u64 = 4 * 3 * 2 * 2;
 /// a peer that presents a good certificate without holding its key: name x flags x root {none, ours} x route
 const IMPOSTOR_CELLS: u64 = 2 * 2 * 2 * 2 * 3;
-pub const CELLS: u64 = MATRIX + TUNNEL_CELLS + IMPOSTOR_CELLS;
+/// the same 48 cells once more with a certificate that chains to the added root but is not valid *yet*
+const NOTYET_CELLS: u64 = IMPOSTOR_CELLS;
+/// ... and with a Certificate message that carries no X.509 certificate at all
+const GARBAGE_CELLS: u64 = IMPOSTOR_CELLS;
+pub const CELLS: u64 = MATRIX + TUNNEL_CELLS + IMPOSTOR_CELLS + NOTYET_CELLS + GARBAGE_CELLS;
 
 #[derive(Clone, Copy, Debug, PartialEq, Eq)]
 enum Chain {
@@ -242,6 +246,8 @@ pub fn scenario(g: &mut G, ctx: &RunCtx) -> RunReport {
         // the matrix cell with the same name / flags / root / route, chain to the added root, flags on the
         // session - presented by somebody who does not hold the certificate's key
         let mut i = cell - MATRIX - TUNNEL_CELLS;
+        let special = [Special::Impostor, Special::NotYetValid, Special::GarbageCertificate][(i / IMPOSTOR_CELLS) as usize];
+        i %= IMPOSTOR_CELLS;
         let mut take = |n: u64| {
             let v = i % n;
             i /= n;
@@ -249,15 +255,30 @@ pub fn scenario(g: &mut G, ctx: &RunCtx) -> RunReport {
         };
         let (name, certs, hosts, root, route) = (take(2), take(2), take(2), take(2), take(3));
         let m = name * 4 + certs * 8 + hosts * 16 + root * 32 + route * 128;
-        return matrix_cell(g, ctx, m, true);
+        return matrix_cell(g, ctx, m, special);
     }
     if cell >= MATRIX {
         return tunnel_cell(g, ctx, cell - MATRIX);
     }
-    matrix_cell(g, ctx, cell, false)
+    matrix_cell(g, ctx, cell, Special::No)
 }
 
-fn matrix_cell(g: &mut G, ctx: &RunCtx, cell: u64, impostor: bool) -> RunReport {
+#[derive(Clone, Copy, PartialEq, Debug)]
+enum Special {
+    No,
+    /// presented by somebody without the certificate's key
+    Impostor,
+    /// the "chain to the added root" fixture replaced by one whose validity starts in 2110
+    NotYetValid,
+    /// the octets in the Certificate message are not a certificate
+    GarbageCertificate,
+}
+
+fn matrix_cell(g: &mut G, ctx: &RunCtx, cell: u64, special: Special) -> RunReport {
+    let garbage = special == Special::GarbageCertificate;
+    // (nobody can be identified by it: the same verdicts as for somebody without the key)
+    let impostor = special == Special::Impostor || garbage;
+    let not_yet = special == Special::NotYetValid;
     let _ = &g;
     let mut c = cell;
     let mut take = |n: u64| {
@@ -276,6 +297,7 @@ fn matrix_cell(g: &mut G, ctx: &RunCtx, cell: u64, impostor: bool) -> RunReport 
     let fixture = format!(
         "{}{}",
         match chain {
+            Chain::ToAddedRoot if not_yet => "notyet",
             Chain::ToAddedRoot => "good",
             Chain::SelfSigned => "selfsigned",
             Chain::UnknownIssuer => "unknown",
@@ -283,14 +305,14 @@ fn matrix_cell(g: &mut G, ctx: &RunCtx, cell: u64, impostor: bool) -> RunReport 
         },
         if name_matches { "" } else { "-wrongname" }
     );
-    let fixture = if impostor { format!("{}+foreignkey", fixture) } else { fixture };
+    let fixture = if garbage { format!("{}+garbagecert", fixture) } else if impostor { format!("{}+foreignkey", fixture) } else { fixture };
     // effective settings of the request under test
     // a sent sibling in the "other CA" cells adds *our* CA while the request under test adds the other one:
     // two siblings with one added root each, and not the same one
     let two_cas = place == Place::SiblingSent && root == Root::OtherAfterDecoy;
     let (eff_certs, eff_hosts, eff_root) = if place == Place::Sibling || place == Place::SiblingSent { (false, false, two_cas) } else { (accept_certs, accept_hosts, root_added) };
     // the unrelated CA is the issuer of the "unknown issuer" fixtures: adding it makes exactly those chains valid
-    let chain_ok = eff_root && ((chain == Chain::ToAddedRoot && root == Root::Ours) || (chain == Chain::UnknownIssuer && root == Root::OtherAfterDecoy));
+    let chain_ok = !not_yet && eff_root && ((chain == Chain::ToAddedRoot && root == Root::Ours) || (chain == Chain::UnknownIssuer && root == Root::OtherAfterDecoy));
     // whoever cannot prove possession of the certificate's key is nobody: never accepted while certificates
     // are checked at all (with the check waived the TLS libraries still insist on the proof: not decided)
     let want_ok = (eff_certs || (chain_ok && (name_matches || eff_hosts))) && !impostor;
@@ -372,7 +394,7 @@ fn matrix_cell(g: &mut G, ctx: &RunCtx, cell: u64, impostor: bool) -> RunReport 
             Route::HttpsProxy => pb = pb.http_proxy(url::Url::parse("https://proxy.test:3129").unwrap()),
         }
         session.proxy_settings(pb.build());
-        let presented_pem = tlspeer::fixture(fixture.trim_end_matches("+foreignkey")).0;
+        let presented_pem = tlspeer::fixture(fixture.trim_end_matches("+garbagecert").trim_end_matches("+foreignkey")).0;
         let my_root = || match root {
             Root::Ours => cert_of(tlspeer::CA_PEM),
             Root::Presented => cert_of(presented_pem),
@@ -491,7 +513,7 @@ fn matrix_cell(g: &mut G, ctx: &RunCtx, cell: u64, impostor: bool) -> RunReport 
     };
     let plaintext_at_peer: usize = tls_log.lock().unwrap().sessions.iter().skip(sessions_before).map(|s| s.plaintext_in).sum();
     let result: Option<Result<Result<(u16, Vec<u8>), String>, String>> = out.result.as_ref().map(|r| r.as_ref().map(|(res, _)| res.clone()).map_err(|e| e.clone()));
-    let tag = format!("{:?}:{}{:?}:name={}:certs={}:hosts={}:root={:?}:{:?}", route, if impostor { "impostor-without-the-key:" } else { "" }, chain, name_matches, accept_certs, accept_hosts, root, place);
+    let tag = format!("{:?}:{}{:?}:name={}:certs={}:hosts={}:root={:?}:{:?}", route, match special { Special::Impostor => "impostor-without-the-key:", Special::NotYetValid => "not-valid-before-2110:", Special::GarbageCertificate => "certificate-is-not-x509:", Special::No => "" }, chain, name_matches, accept_certs, accept_hosts, root, place);
     let verdict = match &result {
         None => violation("hang", "torn down"),
         Some(Err(m)) => violation("panic", m.clone()),
